@@ -440,6 +440,6 @@ def st_deser_frame(ctx: Ctx):
 
 
 PARTS = [
-    Part("programs", check_program, strategy=st_program, quick=2000, thorough=80000),
-    Part("deser_frame", check_deser_frame, strategy=st_deser_frame, quick=1600, thorough=60000),
+    Part("programs", check_program, strategy=st_program, quick=6000, thorough=200000),
+    Part("deser_frame", check_deser_frame, strategy=st_deser_frame, quick=4800, thorough=160000),
 ]
